@@ -20,7 +20,7 @@ RULE = ("Hypothesis-generated cases: order 2-6, nz order+1..16, ntheta 4-12 (uni
         "iota=0 => plain periodic finite differences of the nodal values, zero on fields constant along field lines "
         "(whole-cell twist); observed convergence order >= order-0.7 on smooth modes (nz=16,32,64).  "
         "Non-trivial = iota != 0 or a stencil crossing the periodic seam, on a local row with start > 0.")
-ASSUMPTIONS = ["uniform theta and z grids", "rotational transform constant in r"]
+ASSUMPTIONS = ["uniform z grid; theta break points equidistant except in one general-path case in five (field-line identities only on equidistant theta grids)", "rotational transform constant in r"]
 
 EPS = np.finfo(float).eps
 TWO_PI = 2 * np.pi
@@ -54,7 +54,10 @@ def cases(draw, tier):
             "const": draw(st.floats(-3, 3)), "roll": draw(st.integers(1, 15)), "alpha": draw(st.floats(-2, 2)),
             "rows": draw(st.lists(st.floats(0, 0.999), min_size=1, max_size=2)),
             # a radial grid of integer dtype (upstream's own advection tests build eta_grid[0] = np.array([1]))
-            "int_r": draw(st.integers(0, 4)) == 0}
+            "int_r": draw(st.integers(0, 4)) == 0,
+            # theta break points that are not equidistant (general spline path only)
+            "theta_w": (draw(st.lists(st.floats(0.3, 1.0), min_size=ntheta, max_size=ntheta))
+                        if (not cu and draw(st.integers(0, 4)) == 0) else None)}
 
 
 def build(case, nz=None, ntheta=None):
@@ -65,6 +68,11 @@ def build(case, nz=None, ntheta=None):
     ntheta = ntheta or case["ntheta"]
     space = {"degree": case["deg"], "periodic": True, "uniform": bool(case["cu"]),
              "breaks": [float(x) for x in np.linspace(0, TWO_PI, ntheta + 1)], "uniform_breaks": True}
+    if case.get("theta_w") and len(case["theta_w"]) == ntheta:
+        w = np.asarray(case["theta_w"], dtype=float)
+        br = np.concatenate([[0.0], np.cumsum(w) / w.sum() * TWO_PI])
+        br[-1] = TWO_PI
+        space = dict(space, breaks=[float(x) for x in br], uniform_breaks=False)
     basis = bspl.make_basis(space)
     theta = np.asarray(basis.greville, dtype=float)
     dz = TWO_PI * case["R0"] / nz
@@ -146,7 +154,7 @@ def predicate(case):
             if np.abs(got - fd).max() > tol:
                 raise Violation("C13:%s:plain-fd" % path, "iota=0: differs from the plain periodic finite difference by %.3e"
                                 % np.abs(got - fd).max())
-        if case["twist_cells"]:
+        if case["twist_cells"] and not case.get("theta_w"):      # whole-cell theta shifts need an equidistant theta grid
             # field constant along field lines: phi[m, q] = G[(q - k m) mod ntheta]
             kk = case["twist_cells"]
             G = np.random.default_rng(case["seed"]).standard_normal(case["ntheta"])
